@@ -42,6 +42,9 @@ def run_shape(shape, tier):
         env = Env(symbolic=True)
         sqlprogs.setup_leaves(ctx, env, prog, n)
         templates.declare(ctx, env, shape["params"], shape["cons"])
+        if "refs" not in cache:  # first: programs whose result is indeterminate are not decided at all (no need to build them)
+            alts = ("l", "r") if shared_nonkey(prog, env) else ("l",)
+            cache["refs"] = [relmodel.unordered(sem_seq(prog, env, prefer=p)) for p in alts]
         sqlprogs.history(env, prog)
         try:
             rel = build(prog, env)
@@ -54,9 +57,6 @@ def run_shape(shape, tier):
             ex = env.engines["sq"].to_executable(rel)
         except Exception as e:  # noqa: BLE001
             raise Skip(f"compile failure: {type(e).__name__} (see C08)")
-        if "refs" not in cache:
-            alts = ("l", "r") if shared_nonkey(prog, env) else ("l",)
-            cache["refs"] = [relmodel.unordered(sem_seq(prog, env, prefer=p)) for p in alts]
         refs = cache["refs"]
         try:
             got = sqlprogs.strip_ignored(sqlmodel.select(ex, env.tables))
@@ -78,7 +78,7 @@ def run_shape(shape, tier):
             return [("columns", False, {"sql columns": sorted(got.cols), "expected": sorted(refs[0].cols)})]
         return [("rows (multiset)", z3.Or(*[relmodel.mset_eq(got, r) for r in refs]), {})]
 
-    res = explore(h, max_paths=600, wall_s=150 if tier == "quick" else 900, timeout_ms=30000 if tier == "quick" else 120000)
+    res = explore(h, max_paths=600 if len(shape["params"]) < 6 else 4000, wall_s=150 if tier == "quick" else 900, timeout_ms=30000 if tier == "quick" else 120000)
     out = res.as_dict()
     out["shape"] = fmt(prog)
     out["sample"] = {"program": fmt(prog), "tree": info.get("tree"), "sql": info.get("sql"), "slots per leaf": n, "paths": res.paths}
